@@ -642,10 +642,10 @@ def classify(w, scn, rec, env):
     invalid = neither, and BOTH validators reject it; other = neither, and some validator accepts it"""
     m = main_root(w, scn)
     raw = raw_view(m)
+    if raw == rec.pre_raw:
+        return "old", {"ocflv": None, "rocfl_validate_rc": None}       # byte-identical to before: nothing to validate
     errs, vrc = validate_both(w, scn, env)
     d = {"ocflv": errs, "rocfl_validate_rc": vrc}
-    if raw == rec.pre_raw:
-        return "old", d
     view = obj_view(m)
     if is_new(view, rec.new_view) and errs == [] and vrc == 0:
         return "new", d
